@@ -263,6 +263,10 @@ class Interp:
             return bool(v)
         except S.NativeUseOfSymbol as e:
             raise Unsupported(f"truth: {e}")
+        except INTERNAL:
+            raise
+        except Exception as e:
+            raise PyExc(e, "truth value")
 
     def tainted(self, obj):
         if isinstance(obj, (IGen, IFunc, SymMethod)):
